@@ -14,7 +14,7 @@ import shutil
 import threading
 from typing import Any, Dict, List, Optional, Tuple
 
-from rig import env, driver, shim, resolver, worlds, liverig, gen_http as G
+from rig import env, driver, shim, resolver, worlds, liverig, monitors, gen_http as G
 
 env.quiet_logging()
 
@@ -199,6 +199,8 @@ def run_case(case: Dict[str, Any]) -> Dict[str, Any]:
     names = sorted(scenarios(b'h:1', b'r:1').keys())
     if case['kind'] == 'live-tls':
         return run_live_tls(case)
+    if case['kind'] == 'live-storm':
+        return run_live_storm(case)
     if case['kind'] == 'inproc':
         name = case['scenario']
         try:
@@ -303,6 +305,110 @@ def run_case(case: Dict[str, Any]) -> Dict[str, Any]:
             seen.add(v['key'])
             uniq.append(v)
     return {'viol': uniq, 'nontrivial': True, 'inconclusive': inconclusive, 'sig': 'live/' + cfg, 'obs': obs,
+            'sets': {'live_configs': {cfg}}, 'sample': {'case': case}}
+
+
+def run_live_storm(case: Dict[str, Any]) -> Dict[str, Any]:
+    """Connect storm: many clients connect at the same instant, again and again, so that several acceptors hand connections
+    to the same worker simultaneously.  Every connection gets the same bytes as in the reference mode.  A connection that is
+    accepted but not answered is judged only after the storm, on an idle proxy, with sequential probes and a long wait."""
+    import socket as _s
+    rng = random.Random('c17storm:%s:%s' % (case['seed'], case['i']))
+    mode = case['mode']
+    viol: List[Dict[str, Any]] = []
+    obs: Dict[str, int] = {}
+    inconclusive = None
+    run_dir = env.workdir('c17', 'storm-%d-%d' % (os.getpid(), case['i']))
+    args = proxy_args() + ['--hostname', '127.0.0.1', '--port', '0', '--num-acceptors', str(case['acceptors']), '--num-workers', str(case['workers']),
+                           '--log-level', 'CRITICAL', '--backlog', '1024']
+    args += {'threaded': ['--threaded'], 'local': ['--threadless', '--local-executor', '1'], 'remote': ['--threadless', '--local-executor', '0']}[mode]
+    cfg = 'storm/%s/a%d/w%d/c%d' % (mode, case['acceptors'], case['workers'], case['clients'])
+    live = None
+    try:
+        ref = reference('web-404')
+        if ref['watchdog']:
+            return {'viol': [], 'inconclusive': 'reference-watchdog', 'obs': {}, 'sig': cfg, 'nontrivial': True}
+        live = liverig.Live(args, run_dir, plugins=PLUGINS, resolver={'unused.test': '127.0.0.1'})
+        addr = ('127.0.0.1', live.ready['port'])
+
+        def one(cv: bytes, timeout: float) -> Tuple[str, bytes]:
+            c = _s.socket(_s.AF_INET, _s.SOCK_STREAM)
+            c.settimeout(timeout)
+            rx = b''
+            try:
+                c.connect(addr)
+                c.sendall(b'GET /nope-%s HTTP/1.1\r\nHost: w.test\r\n\r\n' % cv)
+                while True:
+                    d = c.recv(65536)
+                    if not d:
+                        return ('eof', rx.replace(cv, b'CONV'))
+                    rx += d
+            except _s.timeout:
+                return ('unanswered', rx)
+            except OSError as e:
+                return ('error:%s' % type(e).__name__, rx)
+            finally:
+                c.close()
+        results: List[Tuple[bytes, str, bytes]] = []
+        lock = threading.Lock()
+        barrier = threading.Barrier(case['clients'])
+
+        def client(k: int) -> None:
+            for j in range(case['per_client']):
+                if j % 5 == 0:
+                    try:
+                        barrier.wait(5)         # re-align: everybody connects at the same instant again
+                    except threading.BrokenBarrierError:
+                        pass
+                cv = b'st%03d%02d%03d' % (case['i'] % 1000, k, j)
+                r = one(cv, 30.0)
+                with lock:
+                    results.append((cv, r[0], r[1]))
+                if r[0] != 'eof':
+                    barrier.abort()
+                    return
+        ths = [threading.Thread(target=client, args=(k,)) for k in range(case['clients'])]
+        for t in ths:
+            t.start()
+        for t in ths:
+            t.join(600)
+        good = [r for r in results if r[1] == 'eof']
+        for (cv, how, rx) in good:
+            if rx != ref['client']:
+                viol.append({'key': 'web-404|storm-%s-differs-from-step-local|client' % mode,
+                             'detail': {'config': cfg, 'diff': monitors.diff_streams(ref['client'], rx)}})
+                break
+        obs['storm_connections_served'] = len(good)
+        unanswered = [r for r in results if r[1] != 'eof']
+        if unanswered:
+            # idle now: sequential probes, several per acceptor x worker pair
+            failed = 0
+            n = 3 * case['acceptors'] * max(1, case['workers'])
+            for k in range(n):
+                r = one(b'pr%03d%03d' % (case['i'] % 1000, k), 30.0)
+                if r[0] != 'eof' or r[1] != ref['client']:
+                    failed += 1
+                    if failed >= 3:
+                        break       # three unanswered probes on an idle proxy are witness enough
+            if failed:
+                viol.append({'key': 'web-404|storm-%s|connections-never-served-after-concurrent-connects' % mode,
+                             'detail': {'config': cfg, 'storm_unanswered': len(unanswered), 'storm_served': len(good),
+                                        'probes_failed_on_idle_proxy': failed, 'probes': n, 'how': sorted({r[1] for r in unanswered})}})
+            else:
+                inconclusive = 'storm-unanswered-but-idle-probes-fine'
+        down = live.shutdown()
+        if down.get('tag') == 'DOWN':
+            live.exit()
+    except liverig.LiveFailed as e:
+        if not viol:
+            inconclusive = 'driver-failed: %s' % str(e)[:200]
+    finally:
+        if live is not None:
+            live.kill()
+        shutil.rmtree(run_dir, ignore_errors=True)
+    obs['storm_batches'] = 1
+    obs['mode:storm-' + mode] = 1
+    return {'viol': viol, 'nontrivial': True, 'inconclusive': inconclusive, 'sig': cfg, 'obs': obs,
             'sets': {'live_configs': {cfg}}, 'sample': {'case': case}}
 
 
@@ -435,6 +541,10 @@ def cases(tier: str, seed: int):
     for (a, wk) in ([(1, 1), (2, 2)] if tier == 'quick' else [(1, 1), (2, 2), (4, 4), (1, 4), (4, 1)]):
         i += 1
         yield {'seed': seed, 'i': i, 'kind': 'live-tls', 'acceptors': a, 'workers': wk}
+    for (m, a, wk, c, per) in ([('remote', 4, 1, 16, 40), ('remote', 2, 2, 16, 40), ('local', 4, 1, 16, 25), ('threaded', 2, 1, 16, 25)] if tier == 'quick' else
+                               [(m, a, wk, c, 60) for m in ('remote', 'local', 'threaded') for (a, wk) in ((2, 1), (4, 1), (4, 2), (8, 1)) for c in (8, 32)]):
+        i += 1
+        yield {'seed': seed, 'i': i, 'kind': 'live-storm', 'mode': m, 'acceptors': a, 'workers': wk, 'clients': c, 'per_client': per}
     for (m, a, wk, c) in cfgs:
         i += 1
         yield {'seed': seed, 'i': i, 'kind': 'live', 'mode': m, 'acceptors': a, 'workers': wk, 'clients': c, 'rounds': 1 if tier == 'quick' else 3}
@@ -443,7 +553,7 @@ def cases(tier: str, seed: int):
 def floors(tier: str) -> Dict[str, int]:
     return {'transcripts_equal': 150, 'live_transcripts_equal': 100, 'live_batches': 5, 'mode:step-remote': 20, 'mode:thread': 20,
             'mode:live-threaded': 1, 'mode:live-local': 1, 'mode:live-remote': 1, 'distinct:scenarios': 24,
-            'tls_front_transcripts_equal': 8}
+            'tls_front_transcripts_equal': 8, 'storm_batches': 4, 'storm_connections_served': 1500}
 
 
 if __name__ == '__main__':
